@@ -1,5 +1,6 @@
 mod fw;
 mod gen;
+mod oracle;
 mod props;
 
 use fw::{Opts, Tier};
@@ -8,6 +9,7 @@ use std::path::PathBuf;
 macro_rules! dispatch {
     ($id:expr, $f:ident, $($arg:expr),*) => {
         match $id {
+            "C01" => fw::$f::<props::c01::C01>($($arg),*),
             "C17" => fw::$f::<props::c17::C17>($($arg),*),
             "C18" => fw::$f::<props::c18::C18>($($arg),*),
             other => {
